@@ -34,7 +34,7 @@ def Step.fails (s : Step) : Bool :=
     | .eol => false
     | .eof => false
     | .label r => r = -1
-    | .dir n => n ≠ 0 && n ≠ 3 && n ≠ 4
+    | .dir n => n ≠ 0 && n ≠ 3 && n ≠ 4 && n ≠ 5
     | .word r instr => r ≠ 2 && (r = -1 || (r ≠ 1 && match instr with | none => false | some i => i < 0))
     | .other => true
 
@@ -79,8 +79,8 @@ theorem assembleRet_fails (s : Step) (rest : List Step) (e : Bool) (h : s.fails 
       | label r => simp at h; simp [assembleRet, hec0, h]
       | dir n =>
           simp only [Bool.and_eq_true, bne_iff_ne, ne_eq, decide_eq_true_eq] at h
-          obtain ⟨⟨h0, h3⟩, h4⟩ := h
-          simp [assembleRet, hec0, h0, h3, h4]
+          obtain ⟨⟨⟨h0, h3⟩, h4⟩, h5⟩ := h
+          simp [assembleRet, hec0, h0, h3, h4, h5]
       | word r instr =>
           simp only [Bool.and_eq_true, Bool.or_eq_true, bne_iff_ne, ne_eq, decide_eq_true_eq] at h
           obtain ⟨h2, h⟩ := h
@@ -136,7 +136,9 @@ theorem assemble_zero_flag_clear (steps : List Step) (e : Bool)
               · simp at h
               · split at h
                 · simp at h
-                · exact ih h
+                · split at h
+                  · simp at h
+                  · exact ih h
         | word r instr =>
             simp only [assembleRet, hec, ↓reduceIte] at h
             split at h
@@ -169,13 +171,13 @@ theorem assemble_zero_no_failure (pre : List Step) (s : Step) (post : List Step)
 /-- an error in the taken branch of `.if`/`.ifdef`/`.ifndef` is an error of the directive -/
 theorem if_taken_error_propagates (cond skip1 skip2 : Int) (hc : cond ≠ 0) :
     parseIfRet cond skip1 (-1) skip2 = -1 := by
-  unfold parseIfRet ifdefIgnoreRet
+  unfold parseIfRet ifdefIgnoreRet assembleBranch
   by_cases h : cond = -1 <;> simp [h, hc]
 
 /-- an error in the `.else` branch assembled after a skipped block, a missing `.endif`
     in a skipped block, and a bad condition are errors of the directive -/
 theorem if_else_error_propagates (skip2 : Int) : parseIfRet 0 2 (-1) skip2 = -1 := by
-  simp [parseIfRet, ifdefIgnoreRet]
+  simp [parseIfRet, ifdefIgnoreRet, assembleBranch]
 
 theorem if_missing_endif_is_error (nested skip2 : Int) : parseIfRet 0 (-1) nested skip2 = -1 := by
   simp [parseIfRet, ifdefIgnoreRet]
@@ -185,7 +187,56 @@ theorem if_bad_condition_is_error (s1 n s2 : Int) : parseIfRet (-1) s1 n s2 = -1
 
 theorem if_missing_endif_after_else_is_error (cond skip1 : Int) (hc : cond ≠ 0) (hc' : cond ≠ -1) :
     parseIfRet cond skip1 2 (-1) = -1 := by
-  simp [parseIfRet, ifdefIgnoreRet, hc, hc']
+  simp [parseIfRet, ifdefIgnoreRet, assembleBranch, hc, hc']
+
+/-- a taken branch that runs into the end of the file (nested assemble() returns 0) or
+    into an `.endr` (3) is an error: an unterminated conditional is never accepted -/
+theorem if_unterminated_taken_is_error (cond skip1 skip2 nested : Int) (hc : cond ≠ 0)
+    (hn : nested = 0 ∨ nested = 3) : parseIfRet cond skip1 nested skip2 = -1 := by
+  unfold parseIfRet ifdefIgnoreRet assembleBranch
+  by_cases h : cond = -1
+  · simp [h]
+  · rcases hn with hn | hn <;> simp [h, hc, hn]
+
+/-- a second `.else` is an error -/
+theorem if_second_else_is_error (cond skip1 : Int) (hc : cond ≠ 0) (hc' : cond ≠ -1) :
+    parseIfRet cond skip1 2 2 = -1 ∧ parseIfRet 0 2 2 skip1 = -1 := by
+  simp [parseIfRet, ifdefIgnoreRet, assembleBranch, hc, hc']
+
+/-- a conditional directive succeeds only if its selected branch was closed by `.endif` -/
+theorem if_ok_means_closed (cond skip1 nested skip2 : Int) (h : parseIfRet cond skip1 nested skip2 = 0) :
+    cond ≠ -1 ∧ ((cond = 0 ∧ (skip1 = 0 ∨ (skip1 = 2 ∧ nested = 5))) ∨
+                 (cond ≠ 0 ∧ (nested = 5 ∨ (nested = 2 ∧ skip2 = 0)))) := by
+  unfold parseIfRet ifdefIgnoreRet assembleBranch at h
+  by_cases hc1 : cond = -1
+  · simp [hc1] at h
+  · refine ⟨hc1, ?_⟩
+    by_cases hc0 : cond = 0
+    · left
+      refine ⟨hc0, ?_⟩
+      simp only [hc1, hc0, ↓reduceIte, decide_true] at h
+      by_cases hs : skip1 = 2
+      · right
+        refine ⟨hs, ?_⟩
+        by_cases h5 : nested = 5
+        · exact h5
+        · by_cases h2 : nested = 2 <;> simp [hs, h5, h2] at h
+      · left
+        simp [hs] at h
+        omega
+    · right
+      refine ⟨hc0, ?_⟩
+      simp only [hc1, hc0, ↓reduceIte, decide_false] at h
+      by_cases h5 : nested = 5
+      · left; exact h5
+      · right
+        by_cases h2 : nested = 2
+        · refine ⟨h2, ?_⟩
+          by_cases hs2 : skip2 = 2
+          · simp [h5, h2, hs2] at h
+          · simp [h5, h2, hs2] at h
+            omega
+        · simp [h5, h2] at h
 
 theorem include_error_propagates (opened : Bool) (nested : Int) (h : nested ≠ 0) :
     includeDirRet opened nested = -1 := by
@@ -196,10 +247,10 @@ theorem repeat_error_propagates (countOk : Bool) (nested : Int) (h : nested ≠ 
   cases countOk <;> simp [repeatRet, h]
 
 /-- every non-zero result of one of these directives makes the enclosing assemble() fail -/
-theorem dir_error_fails_enclosing (n : Int) (h0 : n ≠ 0) (h3 : n ≠ 3) (h4 : n ≠ 4)
+theorem dir_error_fails_enclosing (n : Int) (h0 : n ≠ 0) (h3 : n ≠ 3) (h4 : n ≠ 4) (h5 : n ≠ 5)
     (pre post : List Step) (e : Bool) (hpre : ∀ x ∈ pre, x.continues = true) :
     assembleRet (pre ++ ⟨0, .dir n⟩ :: post) e = some (-1) :=
-  assemble_first_failure pre ⟨0, .dir n⟩ post e hpre (by simp [Step.fails, h0, h3, h4])
+  assemble_first_failure pre ⟨0, .dir n⟩ post e hpre (by simp [Step.fails, h0, h3, h4, h5])
 
 /-! ### main() -/
 
